@@ -100,7 +100,7 @@ SPECS["C17"] = dict(level="exploration", assumptions=["SQLite stores durations a
 
 SPECS["C18"] = dict(level="exploration", server=True, assumptions=["schedules are whatever the Go scheduler produces on 16 cores for spin-started goroutines (thousands of trials); the race detector watches every trial", "with several overlapping descriptions the exact total is only defined when every matching call matches all of them: such trials use calls whose parameters are a superset of every description"],
     min_relevant={"quick": 500, "thorough": 10000},
-    rule="thousands of trials: a fresh fault Set, 1-3 descriptions for one operation (counts 0,1,2,7,64,MaxInt64; parameter subsets incl. empty/nil), 1/2/10/64 callers released together, a mix of matching and non-matching calls; after all returned: #failed calls == min(sum of counts, #matching calls), each description fired <= its count, non-matching calls and other operations never fail, Current() (after the asynchronous prune settled) lists exactly the remaining counts. Plus the gRPC interceptor with real protobuf requests under both field-name forms, and an end-to-end part on the real binary: POST /faults/inject, 1-32 concurrent gRPC callers, GET /faults. Non-trivial = more than one concurrent caller; relevant = trials with more matching callers than the total count (contended last decrement).",
+    rule="thousands of trials: a fresh fault Set, 1-3 descriptions for one operation (counts 0,1,2,7,64,MaxInt64; parameter subsets incl. empty/nil), 1/2/10/64 callers released together, a mix of matching and non-matching calls; after all returned: #failed calls == min(sum of counts, #matching calls), each description fired <= its count, non-matching calls and other operations never fail, Current() (after the asynchronous prune settled) lists exactly the remaining counts. Plus the gRPC unary interceptor with real protobuf requests under both field-name forms; the server-streaming interceptor over a scripted stream (one description for the start / :RecvMsg / :SendMsg operation, 13 parameter shapes incl. full field names and a JSON-name mismatch, counts 0..MaxInt64, 1-24 concurrent streams: failed starts, receives and sends are each compared with min(count, matching operations), OnFault runs and the remaining listing too); and an end-to-end part on the real binary: POST /faults/inject, 1-32 concurrent gRPC callers, GET /faults. Non-trivial = more than one concurrent caller; relevant = trials with more matching callers than the total count (contended last decrement).",
     parts=[dict(name="set", binary="rigu", pkg="rigu", test="TestC18", race=True, shards={"quick": 16, "thorough": 16}),
            dict(name="http", binary="rigp", pkg="rigp", test="TestC18http", shards={"quick": 2, "thorough": 8})])
 
